@@ -347,13 +347,13 @@ var replyCodesFor = map[int][]int{1: {2, 3, 11}, 4: {5}, 12: {2, 5}, 40: {41, 42
 func replyDatagram(reqWire, secret []byte, code int, attrs []avp) []byte {
 	parsed, err := radius.Parse(reqWire, secret)
 	if err != nil {
-		panic("bad generated request")
+		panic(badCase("bad generated request"))
 	}
 	resp := parsed.Response(radius.Code(code))
 	resp.Attributes = toAttributes(attrs)
 	w, err := resp.Encode()
 	if err != nil {
-		panic("bad generated reply")
+		panic(badCase("bad generated reply"))
 	}
 	// the Response Authenticator is computed here from RFC 2865 §3 / RFC 2866 §3, not taken from the
 	// library's Encode: a self-consistent change of Encode and IsAuthenticResponse must not go unnoticed
